@@ -1,5 +1,6 @@
 import Blf.TruncRound
 import Blf.FileTrunc
+import Blf.HeaderTrunc
 /-!
 # C08 — A file cut off at any byte reads as an unmodified prefix of its objects
 
@@ -12,7 +13,7 @@ Proved at the level of the uncompressed stream, for every cut position (not a sa
 * `C08_cut_object_dropped`: the single step behind it — the stream ends inside the fields of an object: the decoder comes
   back short, the stream is not good, the parser's loop ends.
 
-and at the level of the file, for every cut position `t ≥ 144` (anywhere behind the statistics block):
+and at the level of the file, for **every** cut position `t` (`C08_file_every_cut`):
 
 * `C08_file_prefix`: a read session on the first `t` bytes of a file the writer produced ends with the null result and delivers
   exactly the first `deliveredAt … t` objects written, unmodified and in order — the objects whose fields lie inside the payloads
@@ -21,9 +22,12 @@ and at the level of the file, for every cut position `t ≥ 144` (anywhere behin
   stream, so the `std::fstream`-like stream is not good, `containerStep_cut`);
 * `C08_file_monotone`: `deliveredAt` never decreases when `t` grows.
 
-Not proved: cuts inside the 144-byte statistics block (`t < 144`; no container is complete there; only
-`C10_read_session_ends_without_ub` applies), files whose header still holds the initial all-zero statistics (the reader does
-not consult them; covered dynamically), the classes outside the exactly-framed fragment.
+* `C08_file_header_cut`: a cut inside the 144-byte statistics block (`t < 144`): `open()` succeeds (the signature member keeps, or is
+  partly overwritten with a prefix of, the expected value), the failed state of the `std::fstream` persists, no container is read,
+  the session ends with the null result and no object (`deliveredAt … t = 0` there).
+
+Not proved: files whose header still holds the initial all-zero statistics (the reader does not consult them; covered
+dynamically), the classes outside the exactly-framed fragment.
 -/
 namespace Blf.Props
 open Blf Blf.FileSeq Blf.FileRound Blf.TruncRound
@@ -61,6 +65,36 @@ theorem C08_file_prefix (Z : Zlib) (hZ : ContainerRound.ZRT Z) (cap : Nat) (cfg 
       (readFile Z cap ((writeFile Z cap cfg hdr (L.map fun x => (x.1, x.2.2))).take t)).objs := by
   obtain ⟨ds, h1, h2, h3⟩ := FileTrunc.read_truncated_file Z hZ cap cfg hdr L hL hsig hH hP t ht
   exact ⟨h1, by rw [h2]; exact h3⟩
+
+theorem C08_file_header_cut (Z : Zlib) (cap : Nat) (cfg : WCfg) (hdr : Obj) (objs : List (Codec × Obj))
+    (hsig : hdr.num 0 = FILESIG) (hH : ItemsWF (FileRoundTrip.storedHeader Z cap cfg hdr objs) FileRoundTrip.Lfull)
+    (t : Nat) (ht : t < 144) :
+    (readFile Z cap ((writeFile Z cap cfg hdr objs).take t)).outcome = .ended ∧
+    (readFile Z cap ((writeFile Z cap cfg hdr objs).take t)).objs = [] :=
+  HeaderTrunc.read_truncated_header Z cap cfg hdr objs hsig hH t ht
+
+/-- **every cut position**: the first `t` bytes of a written file, for any `t`, read as the first `deliveredAt … t` objects,
+    unmodified and in order, and the session ends with the null result -/
+theorem C08_file_every_cut (Z : Zlib) (hZ : ContainerRound.ZRT Z) (cap : Nat) (cfg : WCfg) (hdr : Obj)
+    (L : List (Codec × Layout × Obj))
+    (hL : ∀ x ∈ L, Parsable cap x.1 x.2.1 x.2.2 ∧ ArrOK x.1.fresh x.2.1.items)
+    (hsig : hdr.num 0 = FILESIG)
+    (hH : ItemsWF (FileRoundTrip.storedHeader Z cap cfg hdr (L.map fun x => (x.1, x.2.2))) FileRoundTrip.Lfull)
+    (hP : ∀ p ∈ FileRoundTrip.payloads cap cfg (L.map fun x => (x.1, x.2.2)), ContainerRound.PayloadOK Z cap cfg.level p)
+    (t : Nat) :
+    (readFile Z cap ((writeFile Z cap cfg hdr (L.map fun x => (x.1, x.2.2))).take t)).outcome = .ended ∧
+    AllDelivered (L.take (FileTrunc.deliveredAt Z cap cfg L t))
+      (readFile Z cap ((writeFile Z cap cfg hdr (L.map fun x => (x.1, x.2.2))).take t)).objs := by
+  by_cases ht : 144 ≤ t
+  · exact C08_file_prefix Z hZ cap cfg hdr L hL hsig hH hP t ht
+  · obtain ⟨h1, h2⟩ := C08_file_header_cut Z cap cfg hdr _ hsig hH t (by omega)
+    have h0 : FileTrunc.deliveredAt Z cap cfg L t = 0 := by
+      unfold FileTrunc.deliveredAt
+      have : t - 144 = 0 := by omega
+      rw [this, ContainerTrunc.kOf_zero, List.take_zero]
+      exact TruncRound.jOf_zero cap L
+    rw [h2, h0]
+    exact ⟨h1, AllDelivered.nil⟩
 
 theorem C08_file_monotone (Z : Zlib) (cap : Nat) (cfg : WCfg) (L : List (Codec × Layout × Obj)) (t t' : Nat) (h : t ≤ t') :
     FileTrunc.deliveredAt Z cap cfg L t ≤ FileTrunc.deliveredAt Z cap cfg L t' :=
